@@ -228,6 +228,19 @@ func init() {
 		p := k.P
 		uztwm, uzfwm, lztwm, lzfsm, lzfpm, side, pctim, adimp := p[3], p[4], p[5], p[6], p[7], p[11], p[13], p[14]
 		s0 := c10State0(k, r)
+		// Known finding KF-C10-Sacramento-negative-aet: with most of the catchment "additional impervious" (adimp > 0.5) the ADIMP
+		// evaporation term e5 = e1 + (red+e2)·(adimc−e1−uztwc)/(uztwm+lztwm) goes negative when the upper tension store exceeds
+		// adimc, and with it the reported actualET (proved: OW.Props.C10Sacramento.sacramento_negative_aet_counterexample; the
+		// theorem sacramento_outputs_nonneg carries the exact condition PET·uzfwm ≤ lztwm·(uztwm+uzfwm)). Own scope, so that any
+		// other negative output of Sacramento is still reported.
+		if adimp > 0.5 {
+			for t, v := range r.Out[0] {
+				if v < -c10Tol*o.scale {
+					c.OracleFail(id, "Sacramento:negative-aet-high-adimp", fmt.Sprintf("actualET[%d] = %.17g < 0 with adimp = %v", t, v, adimp), body)
+					return
+				}
+			}
+		}
 		if !o.finiteNonneg([]string{"actualET", "runoff", "imperviousRunoff", "surfaceRunoff", "baseflow", "states"},
 			r.Out[0], r.Out[1], r.Out[2], r.Out[3], r.Out[4], r.S) {
 			return
